@@ -1,4 +1,4 @@
-"""C20 -- CP^1 points, disks and Moebius maps (the part reachable by exact symbolic execution: bounded disks)."""
+"""C20 -- CP^1 points, disks and Moebius maps (the part reachable by exact symbolic execution)."""
 import numpy as np
 from geometry_tools import complex_projective as cp, projective, utils
 from symnp import npmodels
@@ -152,3 +152,61 @@ def relations(h, broadcast="elementwise"):
         h.eq("result shape", np.array(np.asarray(con).shape), np.array([1] if broadcast == "elementwise" else [1, 1]))
         h.holds("contains agrees with the set-theoretic answer", want_con if gc else (~want_con if h.is_sym() and not isinstance(want_con, (bool, np.bool_)) else (not want_con)))
         h.holds("intersects agrees with the set-theoretic answer", want_its if gi else (~want_its if h.is_sym() and not isinstance(want_its, (bool, np.bool_)) else (not want_its)))
+
+
+def _disk(h, c, r, unbounded):
+    """a disk with boundary circle |z - c| = r: the bounded side through the constructor, the side containing infinity from its four defining
+    points directly (three boundary points and an interior point outside the circle), which needs no complement() / emath.sqrt"""
+    if not unbounded:
+        return cp.CP1Disk(np.array([c], dtype=object if h.is_sym() else complex), np.array([r], dtype=object if h.is_sym() else float))
+    if h.is_sym():
+        c = FC.lift(c)
+        pts = [FC(c.re + r, c.im), FC(c.re - r, c.im), FC(c.re, c.im + r), FC(c.re + 2 * r, c.im)]
+        data = np.empty((1, 4, 2), dtype=object)
+    else:
+        pts = [c + r, c - r, c + 1j * r, c + 2 * r]
+        data = np.empty((1, 4, 2), dtype=complex)
+    for i, z in enumerate(pts):
+        data[0, i, 0] = 1
+        data[0, i, 1] = z
+    return cp.CP1Disk(data)
+
+
+def relations_any(h, broadcast="elementwise", ua=False, ub=True):
+    """containment / intersection when one or both disks contain infinity (A = inside or outside of circle 1, B likewise for circle 2)"""
+    with _c_to_r_model(h):
+        c2 = h.cvar('bc')
+        r1, r2 = h.var('ar'), h.var('br')
+        c1 = (FC(F.const(0.5), F.const(0.25)) if h.is_sym() else complex(0.5, 0.25))
+        h.assume(r1 > 0, 'radius > 0')
+        h.assume(r2 > 0, 'radius > 0')
+        A = _disk(h, c1, r1, ua)
+        B = _disk(h, c2, r2, ub)
+        h.eq("A contains infinity as constructed", np.array(bool(np.asarray(A.center_inside()).flat[0])), np.array(not ua))
+        h.eq("B contains infinity as constructed", np.array(bool(np.asarray(B.center_inside()).flat[0])), np.array(not ub))
+        d = c1 - c2
+        d2 = (d.re * d.re + d.im * d.im) if h.is_sym() else abs(d) ** 2
+        h.assume((d2 != (r1 - r2) * (r1 - r2)) if h.is_sym() else abs(d2 - (r1 - r2) ** 2) > 1e-3, 'not internally tangent')
+        h.assume((d2 != (r1 + r2) * (r1 + r2)) if h.is_sym() else abs(d2 - (r1 + r2) ** 2) > 1e-3, 'not externally tangent')
+        con = A.contains(B, broadcast=broadcast)
+        its = A.intersects(B, broadcast=broadcast)
+        inner = d2 < (r1 - r2) * (r1 - r2)
+        D1_in_D2 = (r2 > r1) & inner
+        D2_in_D1 = (r1 > r2) & inner
+        disjoint = d2 > (r1 + r2) * (r1 + r2)
+        T = (r1 > 0) if h.is_sym() else True          # constant true / false of the right kind
+        Fa = ~T if h.is_sym() else False
+        if not ua and not ub:
+            want_con, want_its = D2_in_D1, ~disjoint if h.is_sym() else (not disjoint)
+        elif not ua and ub:
+            # a bounded disk never contains a neighbourhood of infinity; it misses the outside of circle 2 only if it lies inside circle 2
+            want_con, want_its = Fa, (~D1_in_D2 if h.is_sym() else (not D1_in_D2))
+        elif ua and not ub:
+            want_con, want_its = disjoint, (~D2_in_D1 if h.is_sym() else (not D2_in_D1))
+        else:
+            want_con, want_its = D1_in_D2, T
+        gc, gi = bool(np.asarray(con).flat[0]), bool(np.asarray(its).flat[0])
+        neg = (lambda x: ~x) if h.is_sym() else (lambda x: not x)
+        h.eq("result shape", np.array(np.asarray(con).shape), np.array([1] if broadcast == "elementwise" else [1, 1]))
+        h.holds("contains agrees with the set-theoretic answer", want_con if gc else neg(want_con))
+        h.holds("intersects agrees with the set-theoretic answer", want_its if gi else neg(want_its))
